@@ -186,13 +186,17 @@ func c15Corpus(thorough bool) []*c15Entry {
 }
 
 // c15Decoders are all Decode methods; each returns (err, value-exerciser).
+// c15MkReader makes the reader the decoders read from: a *bytes.Reader, except in the reader-kinds
+// pass, which substitutes readers that return short reads.
+var c15MkReader = func(b []byte) io.Reader { return bytes.NewReader(b) }
+
 var c15Decoders = []struct {
 	Name string
 	Run  func(data []byte) (err error, panel func())
 }{
 	{"Point", func(b []byte) (error, func()) {
 		var v s2.Point
-		err := v.Decode(bytes.NewReader(b))
+		err := v.Decode(c15MkReader(b))
 		return err, func() {
 			_ = v.CapBound()
 			_ = v.RectBound()
@@ -203,7 +207,7 @@ var c15Decoders = []struct {
 	}},
 	{"Cap", func(b []byte) (error, func()) {
 		var v s2.Cap
-		err := v.Decode(bytes.NewReader(b))
+		err := v.Decode(c15MkReader(b))
 		return err, func() {
 			_ = v.RectBound()
 			_ = v.CapBound()
@@ -215,7 +219,7 @@ var c15Decoders = []struct {
 	}},
 	{"Rect", func(b []byte) (error, func()) {
 		var v s2.Rect
-		err := v.Decode(bytes.NewReader(b))
+		err := v.Decode(c15MkReader(b))
 		return err, func() {
 			_ = v.CapBound()
 			_ = v.RectBound()
@@ -227,12 +231,12 @@ var c15Decoders = []struct {
 	}},
 	{"CellID", func(b []byte) (error, func()) {
 		var v s2.CellID
-		err := v.Decode(bytes.NewReader(b))
+		err := v.Decode(c15MkReader(b))
 		return err, func() { _ = v.IsValid(); _ = v.ToToken(); _ = v.String(); _ = v.Encode(io.Discard) }
 	}},
 	{"Cell", func(b []byte) (error, func()) {
 		var v s2.Cell
-		err := v.Decode(bytes.NewReader(b))
+		err := v.Decode(c15MkReader(b))
 		return err, func() {
 			_ = v.RectBound()
 			_ = v.CapBound()
@@ -243,7 +247,7 @@ var c15Decoders = []struct {
 	}},
 	{"CellUnion", func(b []byte) (error, func()) {
 		var v s2.CellUnion
-		err := v.Decode(bytes.NewReader(b))
+		err := v.Decode(c15MkReader(b))
 		return err, func() {
 			_ = v.IsValid()
 			_ = v.Encode(io.Discard)
@@ -260,7 +264,7 @@ var c15Decoders = []struct {
 	}},
 	{"Polyline", func(b []byte) (error, func()) {
 		var v s2.Polyline
-		err := v.Decode(bytes.NewReader(b))
+		err := v.Decode(c15MkReader(b))
 		return err, func() {
 			n := v.NumEdges()
 			if n > 2000 {
@@ -281,12 +285,12 @@ var c15Decoders = []struct {
 	}},
 	{"Loop", func(b []byte) (error, func()) {
 		var v s2.Loop
-		err := v.Decode(bytes.NewReader(b))
+		err := v.Decode(c15MkReader(b))
 		return err, func() { c15LoopPanel(&v) }
 	}},
 	{"Polygon", func(b []byte) (error, func()) {
 		var v s2.Polygon
-		err := v.Decode(bytes.NewReader(b))
+		err := v.Decode(c15MkReader(b))
 		return err, func() {
 			_ = v.NumLoops()
 			_ = v.RectBound()
